@@ -91,6 +91,10 @@ func runSolver(s solverSpec, file string, timeout float64) solveResult {
 	out, _ := cmd.CombinedOutput()
 	el := time.Since(start).Seconds()
 	text := string(out)
+	// skip notices such as cvc5's "unsupported" (answer to a z3-specific option)
+	for strings.HasPrefix(text, "unsupported\n") {
+		text = text[len("unsupported\n"):]
+	}
 	first := strings.TrimSpace(strings.SplitN(text, "\n", 2)[0])
 	st := "unknown"
 	switch first {
